@@ -89,6 +89,27 @@ func (c *checker) compareDecision(caseID string, ps []policySpec, aclNS string, 
 	if got.IsRoot != want.IsRoot {
 		r.Violate("C03-root-mismatch", caseID, fmt.Sprintf("%s %q: IsRoot %v, documented %v", q.Op, q.Path, got.IsRoot, want.IsRoot), mkWitness(ps, aclNS, &q, got, want))
 	}
+	// list_scan_response_keys_filter_path: only on an allowed list/scan, and then one of the
+	// filters written on the deciding pattern (never dropped when every contributing stanza names one)
+	if want.info.rule != nil && got.Allowed && want.Allowed {
+		fl := want.info.rule.filters
+		list := q.Op == "list" || q.Op == "scan"
+		bad := ""
+		switch {
+		case !list && got.Filter != "":
+			bad = "a filter path is returned for a non-list operation"
+		case list && got.Filter != "" && !fl[got.Filter]:
+			bad = "the filter path does not come from the deciding pattern"
+		case list && got.Filter == "" && len(fl) > 0:
+			bad = "the deciding pattern names a filter path but none is applied"
+		}
+		if list && len(fl) > 0 {
+			r.Count("list_filter_paths_checked", 1)
+		}
+		if bad != "" {
+			r.Violate("C03-list-filter-path", caseID, fmt.Sprintf("%s %q: %s (got %q, pattern %q has %v)", q.Op, q.Path, bad, got.Filter, want.Pattern, fl), mkWitness(ps, aclNS, &q, got, want))
+		}
+	}
 	if got.Allowed && want.Allowed && want.LimitCheck != "" {
 		r.Count("pagination_rewrites_checked", 1)
 		ok := true
@@ -443,6 +464,9 @@ func TestVerif_C03_Exhaustive(t *testing.T) {
 		r.Count("merge_triples", 1)
 	}
 
+	if n := r.Get("note:list_fallback_staged_vs_union_readings_differ"); n > 0 {
+		r.Note("%d list decisions on a path ending in '/' would pick a different pattern if the patterns matching the path with and without the slash competed under the five priority rules together (e.g. a/+ against a/* for LIST a/b/); the implementation tries the slash form first; the documentation is silent, the reference follows the staged order", n)
+	}
 	r.Sample(map[string]any{"case": "pair", "policies": []string{`path "a/+" {capabilities=["read","list"]}`, `path "a/b*" {capabilities=["update","scan","sudo"]}`},
 		"oracle": "on a/b and a/ba the glob wins (rule 1: '+' at 2 is earlier than '*' at 3): update allowed, read refused; on a/a only a/+ matches: read allowed"})
 	r.Sample(map[string]any{"case": "merge", "policies": []string{`path "a/*" {capabilities=["read","sudo"]}`, `path "a/*" {capabilities=["deny"]}`}, "oracle": "every operation on a/b/a refused in both orders, Capabilities = [deny]"})
@@ -595,6 +619,9 @@ func genRandCase(rng *kit.Rand) randCase {
 		if rng.Chance(1, 5) {
 			cands = append(cands, strings.Join(base[:1], "/")+"//"+base[len(base)-1]) // empty segment
 		}
+		if rng.Chance(1, 6) {
+			cands = append(cands, strings.Join(base[:len(base)-1], "/")+"/+", bp+".x", bp+"*") // literal '+', '.', '*' in a request
+		}
 		for _, p := range cands {
 			addPath(reqNS, p)
 		}
@@ -609,7 +636,6 @@ func genRandCase(rng *kit.Rand) randCase {
 	}
 	return rc
 }
-
 
 // genRequests draws the requests of a case. Half of the parameter maps are
 // aimed at the constraints of the pattern that decides the path (taken from the
@@ -668,7 +694,7 @@ func TestVerif_C03_Random(t *testing.T) {
 		r.Assume(a)
 	}
 	c := &checker{r: r}
-	cases := kit.N(6000, 60000)
+	cases := kit.N(6000, 30000)
 	for k := 0; k < cases; k++ {
 		gk := k*shards + shard
 		id := fmt.Sprintf("rand:%d", gk)
@@ -683,6 +709,15 @@ func TestVerif_C03_Random(t *testing.T) {
 		if k < 2 {
 			r.Sample(map[string]any{"case": id, "policy_text": renderAll(rc.Policies), "requests": len(rc.Requests), "first_request": rc.Requests[0]})
 		}
+	}
+	if n := r.Get("note:denied_only_because_max_wrapping_ttl_set_and_request_unwrapped"); n > 0 {
+		r.Note("%d unwrapped requests were refused only because the deciding pattern sets max_wrapping_ttl (no min_wrapping_ttl): the documentation describes max_wrapping_ttl as a bound on the TTL of a wrapped response and names only min_wrapping_ttl as making wrapping mandatory; the reference follows the fail-closed reading, so this is not a verdict", n)
+	}
+	if n := r.Get("note:delete_with_parameters_not_checked_against_parameter_constraints"); n > 0 {
+		r.Note("%d delete requests carrying parameters were allowed on patterns with allowed/denied/required parameters: parameter constraints are only evaluated for create/read/update/patch; the documentation does not say which operations they apply to, so this is not a verdict", n)
+	}
+	if n := r.Get("note:response_keys_filter_path_depends_on_policy_order"); n > 0 {
+		r.Note("%d list decisions returned a different list_scan_response_keys_filter_path under a different policy order (the first stanza naming one wins); allow/deny was order independent; the property speaks about the decision, so this is not a verdict", n)
 	}
 	if kit.OnlyCase() == "" {
 		r.Require("decisions", int64(kit.N(400000, 400000)))
@@ -794,6 +829,9 @@ func (c *checker) runRandCase(id string, rc randCase) {
 		for i, q := range rc.Requests {
 			got := implDecide(acl2, q)
 			r.Count("permutation_decisions_compared", 1)
+			if got.Filter != base[i].Filter {
+				r.Count("note:response_keys_filter_path_depends_on_policy_order", 1)
+			}
 			if got.Allowed != base[i].Allowed || got.RootPrivs != base[i].RootPrivs || got.LimitSet != base[i].LimitSet || !reflect.DeepEqual(got.Limit, base[i].Limit) {
 				w := mkWitness(ps, rc.ACLNS, &q, got, base[i])
 				w.Order = perm
@@ -1021,6 +1059,8 @@ func TestVerif_C03_SharedPolicies(t *testing.T) {
 					sa, q.Op, q.Path, q.Data, before[i].Allowed, want.Allowed, others, dir), w)
 		}
 	}
+	r.Sample(map[string]any{"case": "shape", "pool": []string{`p0: path "a/b" {capabilities=[...] required_parameters=["r1","r2","r3"]}`, `p1: path "a/b" {... required_parameters=["x"]}`, `p2: path "a/b" {... required_parameters=["y"]}`},
+		"oracle": "A=NewACL(p0,p1) requires r1,r2,r3,x; building NewACL(p0,p2) afterwards must not change what A requires"})
 	if kit.OnlyCase() == "" {
 		r.Require("decisions_rechecked", 100000/int64(shards))
 		r.Require("pools_where_A_merges_a_pattern", 500/int64(shards))
